@@ -47,7 +47,7 @@ Proof.
 Qed.
 
 Lemma race_other_kinds :
-  forallb (fun kind => forallb (fun k => race_agree kind k 0 0) (zrange 0 4)) [0; 1; 3; 4; 5] = true.
+  forallb (fun kind => forallb (fun k => race_agree kind k 0 0) (zrange 0 4)) [0; 1; 3; 4; 5; 6; 7; 8; 9] = true.
 Proof. vm_compute. reflexivity. Qed.
 
 Lemma race_kind2 :
@@ -58,7 +58,7 @@ Proof. vm_compute. reflexivity. Qed.
 (* MODEL = SPECIFICATION on the domain of the engine: every scenario kind, 0..3 other calls in
    flight, every one-byte error code, every position of the target in the completion order. *)
 Theorem closerace_spec : forall kind k code pos rest,
-  0 <= kind <= 5 -> 0 <= k <= 3 -> 0 <= code <= 255 -> 0 <= pos <= k ->
+  0 <= kind <= 9 -> 0 <= k <= 3 -> 0 <= code <= 255 -> 0 <= pos <= k ->
   run_closerace (kind :: k :: code :: pos :: rest) = spec_closerace kind k code.
 Proof.
   intros kind k code pos rest Hkind Hk Hcode Hpos. rewrite run_closerace_tail.
@@ -68,7 +68,7 @@ Proof.
     pose proof race_kind2 as H. rewrite forallb_forall in H. specialize (H k Ik).
     rewrite forallb_forall in H. specialize (H pos ltac:(apply zrange_in; lia)).
     rewrite forallb_forall in H. apply H. apply zrange_in. lia.
-  - assert (Ikind : In kind [0; 1; 3; 4; 5]) by (cbn; lia).
+  - assert (Ikind : In kind [0; 1; 3; 4; 5; 6; 7; 8; 9]) by (cbn; lia).
     pose proof race_other_kinds as H. rewrite forallb_forall in H. specialize (H kind Ikind).
     rewrite forallb_forall in H. specialize (H k Ik). apply race_agree_eq in H.
     unfold run_closerace in *. rewrite (race_state_nocode kind k code pos E), (race_spec_nocode kind k code E). exact H.
@@ -112,5 +112,11 @@ Proof.
       * apply Hf. apply race_op_reach. apply race_op_reach. apply Hd. exact H0.
       * destruct (kind =? 4).
         -- repeat apply race_op_reach. exact H0.
-        -- apply Hf. apply race_op_reach. apply Hd. exact H0.
+        -- destruct ((kind =? 6) || (kind =? 8)).
+           ++ apply race_fold_reach; [intros; apply race_op_reach; assumption|].
+              unfold race_resume. apply run_to_reach. apply race_op_reach. apply race_op_reach.
+              apply race_fold_reach; [intros; apply race_op_reach; assumption|exact H0].
+           ++ destruct ((kind =? 7) || (kind =? 9)).
+              ** apply Hf. unfold race_resume. apply run_to_reach. apply race_op_reach. apply race_op_reach. apply Hd. exact H0.
+              ** apply Hf. apply race_op_reach. apply Hd. exact H0.
 Qed.
